@@ -31,9 +31,12 @@ def _mk_results(case):
                             dtype="float64")
             tinp = np.array([case["t0"] + i for i in rows], dtype="int64").astype("datetime64[s]").astype("datetime64[ns]")
             zo = case.get("zero_axes", [False, False, False])
-            zinp = np.array([0.0 if zo[0] else float(10 + i) for i in rows], dtype="float64")   # a surface sensor: depth 0
-            lat = np.array([0.0 if zo[1] else float(20 + i) for i in rows], dtype="float64")    # on the equator
-            lon = np.array([0.0 if zo[2] else float(30 + i) for i in rows], dtype="float64")
+            fa = 1.0 if case.get("frac_axes") else 0.0          # axes with a fractional part: 10.25, 20.5, 30.75
+            zinp = np.array([0.0 if zo[0] else float(10 + i) + fa / 4 for i in rows], dtype="float64")   # a surface sensor: depth 0
+            lat = np.array([0.0 if zo[1] else float(20 + i) + fa / 2 for i in rows], dtype="float64")    # on the equator
+            lon = np.array([0.0 if zo[2] else float(30 + i) + 3 * fa / 4 for i in rows], dtype="float64")
+            if case.get("int_data") and not np.isnan(data).any() and np.all(data == np.floor(data)):
+                data = data.astype("int64")                    # raw counts: an integer-typed data column
         else:
             # what the streams pass when an axis is absent
             data = np.array([float(F(case["data"][i])) if case["data"][i] is not None else np.nan
@@ -161,9 +164,10 @@ class Collect(Adapter):
             if r["axes"]:
                 t = clist([f"Some {q(case['t0'] + i)}" for i in rows])
                 zo = case.get("zero_axes", [False, False, False])
-                zz = clist([f"Some {q(0 if zo[0] else 10 + i)}" for i in rows])
-                la = clist([f"Some {q(0 if zo[1] else 20 + i)}" for i in rows])
-                lo = clist([f"Some {q(0 if zo[2] else 30 + i)}" for i in rows])
+                fa = 1 if case.get("frac_axes") else 0
+                zz = clist([f"Some {q(0 if zo[0] else 10 + i + F(fa, 4))}" for i in rows])
+                la = clist([f"Some {q(0 if zo[1] else 20 + i + F(fa, 2))}" for i in rows])
+                lo = clist([f"Some {q(0 if zo[2] else 30 + i + F(3 * fa, 4))}" for i in rows])
                 pay = clist([data, t, zz, la, lo])
             else:
                 pay = clist([data, "[]", "[]", "[]", "[]"])
@@ -261,6 +265,13 @@ def gen_collect(tier, rng, how="list"):
             data = [None if d is None else "0" for d in data]      # all-zero data as well
         cases.append({"how": how, "n": n, "t0": 1577836800 + ci, "data": data, "rs": rs, "wf": wf,
                       "zero_axes": zero_axes})
+        if rng.random() < 0.3:
+            cases[-1]["frac_axes"] = True
+        if rng.random() < 0.3:
+            # an integer-typed data column (raw counts, no gaps) beside fractional depths / positions
+            cases[-1]["data"] = [core.fr(F(rng.randint(-5, 40))) for _ in range(n)]
+            cases[-1]["int_data"] = True
+            cases[-1]["frac_axes"] = True
     # a few malformed histories: flag array of the wrong length (numpy broadcast / ValueError)
     for _ in (1,):
         cases.append({"how": how, "n": 3, "t0": 1577836800, "data": ["1", "2", "3"], "wf": False,
